@@ -1496,3 +1496,112 @@ Section Plain3.
     apply Hnf. apply (history_fresh_uid c pre ev fu (e_pw e) Hin Hc).
   Qed.
 End Plain3.
+
+(* ================================================================================================ *)
+(* Part 10: the remaining results, read off the history (user existence, create_session)               *)
+Section Plain4.
+  Variable H : Type.
+  Variable hash : pwd -> N -> list N -> H.
+  Variable verify_hash : H -> pwd -> list N -> bool.
+  Hypothesis verify_ok : forall pw salt pep pw' pep',
+    verify_hash (hash pw salt pep) pw' pep' = true <-> pw' = pw /\ pep' = pep.
+
+  Notation step := (step H hash verify_hash).
+  Notation run := (run H hash verify_hash).
+  Notation history := (history H hash verify_hash).
+  Notation init := (init H).
+
+  Lemma rng_ok_snoc : forall pre o, rng_ok pre -> op_fresh_tok o = [] -> rng_ok (pre ++ [o]).
+  Proof.
+    intros pre o Hr Ho. unfold rng_ok, fresh_toks in *. rewrite flat_map_app. cbn [flat_map]. rewrite Ho.
+    cbn [app]. rewrite app_nil_r. exact Hr.
+  Qed.
+
+  (* the reference step taken by the model at the end of a history, with the history invariants *)
+  Lemma last_step : forall c pre o, rng_ok (pre ++ [o]) ->
+    exists r r', rstep r o r' (snd (step (fst (run (init c) pre)) o)) /\
+                 (forall t u x, tok_status c (history c pre) t = Some (u, x) <-> holder r t u x) /\
+                 (forall u pw pep, cred_status c (history c pre) u = Some (pw, pep) <->
+                                   exists e, r_map r u = Some e /\ e_pw e = pw /\ e_pep e = pep).
+  Proof.
+    intros c pre o Hr.
+    destruct (reach_inv H hash verify_hash verify_ok c pre [o] Hr) as [r [_ [Hff Hi]]].
+    destruct (inv_step H hash verify_hash verify_ok _ _ _ _ o [] Hi Hff) as [r' [Hrs _]].
+    exists r, r'. split; [exact Hrs|]. split.
+    - intros t. apply (proj2 (inv_tok _ _ _ _ _ _ Hi t)).
+    - intros u. apply (proj2 (inv_cred _ _ _ _ _ _ Hi u)).
+  Qed.
+
+  Lemma cred_none_iff : forall c h u (r : rstate),
+    (forall pw pep, cred_status c h u = Some (pw, pep) <-> exists e, r_map r u = Some e /\ e_pw e = pw /\ e_pep e = pep) ->
+    (cred_status c h u = None <-> r_map r u = None).
+  Proof.
+    intros c h u r Hst. split.
+    - intros Hn. destruct (r_map r u) as [e|] eqn:He; [|reflexivity].
+      assert (Hs : cred_status c h u = Some (e_pw e, e_pep e)) by (apply Hst; exists e; auto). congruence.
+    - intros Hn. destruct (cred_status c h u) as [[pw pep]|] eqn:Es; [|reflexivity].
+      destruct (proj1 (Hst pw pep) eq_refl) as [e [He _]]. congruence.
+  Qed.
+
+  (* exists(uid) is true exactly for uids created and not removed since *)
+  Theorem exists_verdict : forall c pre u, rng_ok pre ->
+    snd (step (fst (run (init c) pre)) (Exists u)) =
+    Ok (VBool (match cred_status c (history c pre) u with Some _ => true | None => false end)).
+  Proof.
+    intros c pre u Hr.
+    destruct (last_step c pre (Exists u) (rng_ok_snoc pre (Exists u) Hr eq_refl)) as [r [r' [Hrs [_ Hcr]]]].
+    pose proof (cred_none_iff _ _ _ _ (Hcr u)) as Hn.
+    remember (snd (step (fst (run (init c) pre)) (Exists u))) as x eqn:Ex. clear Ex.
+    inversion Hrs; subst. f_equal. f_equal.
+    destruct (cred_status c (history c pre) u) as [p|] eqn:Es.
+    - match goal with Hb : ?b = true <-> _ |- _ => apply Hb end. intros E. apply Hn in E. discriminate.
+    - match goal with Hb : ?b = true <-> _ |- _ => destruct b; [|reflexivity]; exfalso; apply (proj1 Hb eq_refl) end.
+      apply Hn. reflexivity.
+  Qed.
+
+  (* remove_user succeeds exactly for such uids *)
+  Theorem remove_user_verdict : forall c pre u, rng_ok pre ->
+    snd (step (fst (run (init c) pre)) (RemoveUser u)) =
+    match cred_status c (history c pre) u with Some _ => Ok VUnit | None => Err EUserNotFound end.
+  Proof.
+    intros c pre u Hr.
+    destruct (last_step c pre (RemoveUser u) (rng_ok_snoc pre (RemoveUser u) Hr eq_refl)) as [r [r' [Hrs [_ Hcr]]]].
+    pose proof (cred_none_iff _ _ _ _ (Hcr u)) as Hn.
+    remember (snd (step (fst (run (init c) pre)) (RemoveUser u))) as x eqn:Ex. clear Ex.
+    inversion Hrs; subst.
+    - destruct (cred_status c (history c pre) u); [reflexivity|]. exfalso.
+      match goal with Hne : r_map r u <> None |- _ => apply Hne end. apply Hn. reflexivity.
+    - match goal with He : r_map r u = None |- _ => apply Hn in He; rewrite He end. reflexivity.
+  Qed.
+
+  (* create_session(_with_lifetime): UserNotFound for an unknown uid; SessionAlreadyExists while a token standing for the
+     user is unexpired at the first clock read; otherwise the RNG's draw is issued — in particular a user whose session
+     has expired is never locked out *)
+  Theorem create_session_verdict : forall c pre u life n0 n2 tok,
+    rng_ok (pre ++ [CreateSessionLt u life n0 n2 tok]) ->
+    (cred_status c (history c pre) u = None ->
+     snd (step (fst (run (init c) pre)) (CreateSessionLt u life n0 n2 tok)) = Err EUserNotFound) /\
+    (cred_status c (history c pre) u <> None ->
+     (exists t x, tok_status c (history c pre) t = Some (u, x) /\ n0 < x) ->
+     snd (step (fst (run (init c) pre)) (CreateSessionLt u life n0 n2 tok)) = Err ESessionExists) /\
+    (cred_status c (history c pre) u <> None ->
+     (forall t x, tok_status c (history c pre) t = Some (u, x) -> x <= n0) ->
+     snd (step (fst (run (init c) pre)) (CreateSessionLt u life n0 n2 tok)) = Ok (VId tok)).
+  Proof.
+    intros c pre u life n0 n2 tok Hr.
+    destruct (last_step c pre _ Hr) as [r [r' [Hrs [Htk Hcr]]]].
+    pose proof (cred_none_iff _ _ _ _ (Hcr u)) as Hn.
+    remember (snd (step (fst (run (init c) pre)) (CreateSessionLt u life n0 n2 tok))) as x eqn:Ex. clear Ex.
+    inversion Hrs; subst.
+    match goal with Hc : rcreate _ _ _ _ _ _ _ _ |- _ => inversion Hc; subst end.
+    - repeat split; try reflexivity; intros Hne; exfalso; apply Hne; apply Hn; assumption.
+    - match goal with He : r_map r u = Some ?e, Hl : has_live_session ?e n0 |- _ =>
+        destruct Hl as [t0 [x0 [Hs0 Hl0]]]; assert (Hh : holder r t0 u x0) by (exists e; auto) end.
+      split; [intros E; apply Hn in E; congruence|]. split; [reflexivity|].
+      intros _ Hall. apply Htk in Hh. specialize (Hall _ _ Hh). lia.
+    - split; [intros E; apply Hn in E; congruence|]. split; [|reflexivity].
+      intros _ [t0 [x0 [Hs0 Hl0]]]. exfalso. apply Htk in Hs0. destruct Hs0 as [e0 [He0 Hse0]].
+      match goal with He : r_map r u = Some ?e, Hnl : ~ has_live_session ?e n0 |- _ =>
+        apply Hnl; rewrite He in He0; inversion He0; subst e0; exists t0, x0; auto end.
+  Qed.
+End Plain4.
